@@ -278,7 +278,13 @@ func parseForOracle(c rawCfg) parsedCfg {
 		for _, s := range config.Split(c.OutInclude) {
 			if p, err := netip.ParsePrefix(s); err == nil {
 				q.incl = append(q.incl, p)
-				if p.Addr().IsLoopback() {
+				// "loopback explicitly included": the range is WRITTEN with a loopback address (127.x.y.z/n, ::1/n,
+				// ::ffff:127.x.y.z/n), whatever its length - stated by containment in the loopback networks
+				a := p.Addr()
+				if a.Is4In6() {
+					a = a.Unmap()
+				}
+				if netip.MustParsePrefix("127.0.0.0/8").Contains(a) || a == netip.MustParseAddr("::1") {
 					q.loopbackIncluded = true
 				}
 			}
